@@ -58,18 +58,20 @@ pub assume_specification<T: Ord + core::marker::Destruct> [std::cmp::max] (a: T,
 pub uninterp spec fn idx_lo<I>(i: I) -> int;
 pub uninterp spec fn idx_hi<I>(i: I, len: int) -> int;
 pub uninterp spec fn as_seq<O: ?Sized, T>(o: &O) -> Seq<T>;
+pub open spec fn slice_facts<T>() -> bool {
+    &&& forall|s: &[T]| #[trigger] as_seq::<[T], T>(s) == s@
+    &&& forall|r: RangeTo<usize>| #[trigger] idx_lo(r) == 0
+    &&& forall|r: RangeTo<usize>, len: int| #[trigger] idx_hi(r, len) == r.end as int
+    &&& forall|r: Range<usize>| #[trigger] idx_lo(r) == r.start as int
+    &&& forall|r: Range<usize>, len: int| #[trigger] idx_hi(r, len) == r.end as int
+    &&& forall|r: RangeFrom<usize>| #[trigger] idx_lo(r) == r.start as int
+    &&& forall|r: RangeFrom<usize>, len: int| #[trigger] idx_hi(r, len) == len
+    &&& forall|r: RangeFull| #[trigger] idx_lo(r) == 0
+    &&& forall|r: RangeFull, len: int| #[trigger] idx_hi(r, len) == len
+}
 #[verifier::external_body]
 pub proof fn axiom_slices<T>()
-    ensures
-        forall|s: &[T]| #[trigger] as_seq::<[T], T>(s) == s@,
-        forall|r: RangeTo<usize>| #[trigger] idx_lo(r) == 0,
-        forall|r: RangeTo<usize>, len: int| #[trigger] idx_hi(r, len) == r.end as int,
-        forall|r: Range<usize>| #[trigger] idx_lo(r) == r.start as int,
-        forall|r: Range<usize>, len: int| #[trigger] idx_hi(r, len) == r.end as int,
-        forall|r: RangeFrom<usize>| #[trigger] idx_lo(r) == r.start as int,
-        forall|r: RangeFrom<usize>, len: int| #[trigger] idx_hi(r, len) == len,
-        forall|r: RangeFull| #[trigger] idx_lo(r) == 0,
-        forall|r: RangeFull, len: int| #[trigger] idx_hi(r, len) == len,
+    ensures slice_facts::<T>(),
 { unimplemented!() }
 pub assume_specification<T, I: core::slice::SliceIndex<[T]>, A: std::alloc::Allocator> [<Vec<T,A> as core::ops::IndexMut<I>>::index_mut] (v: &mut Vec<T,A>, i: I) -> (s: &mut <Vec<T,A> as core::ops::Index<I>>::Output)
     ensures
